@@ -41,16 +41,16 @@ VF_HARNESS(inner_index_out_of_range) {   // v[i][j] / v(i,j): i valid, j outside
 }
 #endif
 #if DIM >= 2   // the 1-D sliced() has no bounds assertion at all: it accepts first > last for reversed ranges (sliced(3, 0, -1) is a tested use), so nothing is claimed for D = 1
-VF_HARNESS(range_out_of_range) {   // sliced(a,b) / v({a,b}) with a non-empty range that leaves the extension: using the last index of the result must be stopped
+VF_HARNESS(range_out_of_range) {   // sliced(a,b) / v({a,b}) with a non-empty range that leaves the extension: indexing the result at ITS OWN first and last valid index must be stopped (the result designates storage outside the source)
   Spec<D> s = arbitrary_spec<D>(1, FB);
   auto v = view_of<D>(s, g_mem);
   L a = vf_range(-8, 8); L b = vf_range(-8, 9); vf_assume(a < b);
   vf_assume(a < s.d[0].first || b > s.d[0].first + s.d[0].size);
   L which = vf_range(0, 2);
   vf_reach("before the out-of-range range");
-  if(which == 0) { auto r = v.sliced(a, b); auto&& e = r[b - 1]; (void)e; auto&& f = r[a]; (void)f; }
-  else if(which == 1) { auto r = v({a, b}); auto&& e = r[b - 1]; (void)e; auto&& f = r[a]; (void)f; }
-  else { auto const& cv = v; auto r = cv.sliced(a, b); auto&& e = r[b - 1]; (void)e; auto&& f = r[a]; (void)f; }
+  if(which == 0) { auto r = v.sliced(a, b); auto&& e = r[r.extension().back()]; (void)e; auto&& f = r[r.extension().front()]; (void)f; }
+  else if(which == 1) { auto r = v({a, b}); auto&& e = r[r.extension().back()]; (void)e; auto&& f = r[r.extension().front()]; (void)f; }
+  else { auto const& cv = v; auto r = cv.sliced(a, b); auto&& e = r[r.extension().back()]; (void)e; auto&& f = r[r.extension().front()]; (void)f; }
   vf_assert(false, "a range outside the extension was accepted and its end points were indexed without a library assertion");
 }
 #endif
